@@ -242,10 +242,10 @@ theorem errorPath_no_hang {W : Type} (S : ServerEnv) (hs : FlagsSane S.info) (c 
     have hcomm : (S.info xv.cls).isComm = true := by
       by_cases hcl : (S.info xv.cls).isConnClosed = true
       · exact hs _ hcl
-      · simp only [hcl, Bool.not_false, Bool.true_and, Bool.or_eq_true, Bool.not_eq_true', not_or,
+      · simp only [repliesTo, hcl, Bool.not_false, Bool.true_and, Bool.or_eq_true, Bool.not_eq_true', not_or,
           Bool.not_eq_true, Bool.not_eq_false] at hcond
         exact hcond.2
-    simp [hcomm]
+    simp [reraisesAfter, hcomm]
 
 /-- **C07_no_hang.**  Whatever the serializer library does and whatever is raised or returned: when the server sends
     no reply to a single call or to a batch, it drops the connection — the caller's receive ends with a
@@ -565,90 +565,112 @@ theorem genInfo_sane : FlagsSane genInfo := by
     have hmem : (q, f) ∈ Pyro.Gen.C07.classFlags := assoc_mem q f _ h
     exact (C07_gen_flags_sane (q, f) hmem).1
 
-/-- the classes excluded by the `_partial` theorems are exactly those the server's code treats specially: the
-    handler catches `Exception` only, replies unless ConnectionClosedError / non-Serialize CommunicationError,
-    re-raises for callbacks, CommunicationError and SecurityError; the batch handler catches `Exception` and stops -/
-theorem C07_gen_server_shape :
-    Pyro.Gen.C07.outerCatches = ["Exception"]
-    ∧ Pyro.Gen.C07.replyGuards = ["msg", "not isinstance(xv, errors.ConnectionClosedError)",
-        "not request_flags & protocol.FLAGS_ONEWAY",
-        "isinstance(xv, errors.SerializeError) or not isinstance(xv, errors.CommunicationError)"]
-    ∧ Pyro.Gen.C07.replyCalls = ["self._sendExceptionResponse"]
-    ∧ Pyro.Gen.C07.reraiseTest = "isCallback or isinstance(xv, (errors.CommunicationError, errors.SecurityError))"
-    ∧ Pyro.Gen.C07.batchCatches = ["Exception"]
-    ∧ Pyro.Gen.C07.batchSetsTraceback = true
-    ∧ Pyro.Gen.C07.streamCatches = ["Exception"] ∧ Pyro.Gen.C07.streamReraises = true
-    ∧ Pyro.Gen.C07.exceptionFlag = ["flags |= protocol.FLAGS_EXCEPTION"] := by decide
+/-! The following obligations compare the model's *decision functions* with behaviour probed on the real code at
+    extraction time (harness/props/c07_probe.py drives the real handleRequest / _pyroInvoke / BatchProxy / retry loop over
+    in-memory sockets); no fact is read from the syntax of the source. -/
 
-/-- the fallback: `dumps(exc_value)` is tried once, any `Exception` switches to `errors.PyroError` with the modelled
-    text, and the traceback attribute is the one the model sets -/
-theorem C07_gen_fallback_shape :
-    Pyro.Gen.C07.fallbackFormat = "Error serializing exception: %s. Original exception: %s: %s"
-    ∧ Pyro.Gen.C07.fallbackArgs = ["str(xv)", "type(exc_value)", "str(exc_value)"]
-    ∧ Pyro.Gen.C07.fallbackCatches = ["Exception"]
-    ∧ Pyro.Gen.C07.fallbackTry = ["data = serializer.dumps(exc_value)"]
-    ∧ Pyro.Gen.C07.fallbackClass = ["errors.PyroError"]
-    ∧ Pyro.Gen.C07.tracebackTargets = ["exc_value._pyroTraceback"]
-    ∧ kTraceback = "_pyroTraceback".toList := by decide
+/-- **the server's error handler**: for every class (all 77 + struct.error) and both kinds of method, the real
+    handleRequest sent an exception reply exactly when the model's `isException ∧ repliesTo` says so, and let the exception
+    leave (connection dropped) exactly when the model's `¬isException ∨ reraisesAfter` says so -/
+theorem C07_gen_error_path : ∀ r ∈ Pyro.Gen.C07.errorPathProbe,
+    r.2.2.1 = ((genInfo r.1).isException && repliesTo (genInfo r.1))
+    ∧ r.2.2.2 = (!(genInfo r.1).isException || reraisesAfter (genInfo r.1) r.2.1) := by decide +kernel
 
-/-- the batch loop wraps what `_serializeException` returned (holds with fixes/C07-batch-unserialisable-exception.patch;
-    on the unpatched tree this obligation fails and `C07_fallback_batch` does not apply) -/
+theorem C07_gen_error_path_covers :
+    Pyro.Gen.C07.errorPathProbe.map (fun r => (r.1, r.2.1))
+      = Pyro.Gen.C07.classFlags.flatMap (fun c => [(c.1, false), (c.1, true)]) := by decide +kernel
+
+/-- attribute read / write and stream items decide like a plain call; what an accessor raises (AttributeError on an
+    object with `__getattr__` included) is what is sent; a forwarded exception is intact and gains exactly the attribute
+    `_pyroTraceback`, a non-empty list of str -/
+theorem C07_gen_other_kinds :
+    Pyro.Gen.C07.otherKindsDecideAlike = true ∧ Pyro.Gen.C07.accessorErrorForwarded = true
+    ∧ Pyro.Gen.C07.forwardedIntact = true ∧ Pyro.Gen.C07.tracebackIsLines = true
+    ∧ Pyro.Gen.C07.tracebackAttr.map String.toList = [kTraceback] := by decide
+
+/-- the fallback: exactly a PyroError, with the modelled text, carrying only the traceback, nothing re-raised -/
+theorem C07_gen_fallback :
+    Pyro.Gen.C07.fallbackIsPyroError = true ∧ Pyro.Gen.C07.fallbackTextMatches = true
+    ∧ Pyro.Gen.C07.fallbackCarriesOnlyTraceback = true := by decide
+
+/-- **the batch loop**: a member's exception is wrapped (with traceback, after the earlier results, the later calls
+    not run) exactly for `Exception`s; anything else leaves handleRequest without a reply -/
+theorem C07_gen_batch : (∀ r ∈ Pyro.Gen.C07.batchProbe,
+      r.2.1 = (genInfo r.1).isException ∧ r.2.2.1 = !(genInfo r.1).isException ∧ r.2.2.2 = (genInfo r.1).isException)
+    ∧ Pyro.Gen.C07.batchProbe.map (·.1) = Pyro.Gen.C07.classFlags.map (·.1) := by decide +kernel
+
+/-- the batch loop wraps the generic PyroError when the member's exception cannot be serialised -/
 theorem C07_gen_batch_fallback : Pyro.Gen.C07.batchFallback = true := by decide
 
-/-- the dicts: keys and values of the exception dict and of the wrapper dict, `make_exception`, `raiseIt` -/
-theorem C07_gen_dict_shape :
-    Pyro.Gen.C07.excDictKeys.map String.toList = [kClass, kException, kArgs, kAttributes]
-    ∧ Pyro.Gen.C07.excDictValues = ["obj.__class__.__module__ + '.' + obj.__class__.__name__", "True", "obj.args", "vars(obj)"]
-    ∧ Pyro.Gen.C07.wrapperDictKeys.map String.toList = [kClass, kWrapped]
-    ∧ Pyro.Gen.C07.wrapperDictValues = ["'Pyro5.core._ExceptionWrapper'", "serializers.SerializerBase.class_to_dict(self.exception)"]
-    ∧ Pyro.Gen.C07.wrapperRaise = ["raise self.exception"]
-    ∧ Pyro.Gen.C07.makeException = ["ex = exceptiontype(*data['args'])",
-        "if 'attributes' in data:\n    for attr, value in data['attributes'].items():\n        setattr(ex, attr, value)",
-        "return ex"] := by decide
+/-- **the caller**: `_pyroInvoke` raises the decoded exception and releases the connection exactly for
+    CommunicationErrors and KeyboardInterrupt; a plain reply is returned; no reply is a ConnectionClosedError with release;
+    the batch result iterator yields, then raises without releasing, and turns StopIteration into RuntimeError -/
+theorem C07_gen_client : (∀ r ∈ Pyro.Gen.C07.clientProbe, r.2 = ((genInfo r.1).isComm || (genInfo r.1).isKbdInt))
+    ∧ 70 ≤ Pyro.Gen.C07.clientProbe.length
+    ∧ Pyro.Gen.C07.clientReturnsValue = true ∧ Pyro.Gen.C07.clientNoReplyIsConnectionClosedAndReleases = true
+    ∧ Pyro.Gen.C07.batchYieldsThenRaises = true ∧ Pyro.Gen.C07.batchRaiseDoesNotRelease = true
+    ∧ Pyro.Gen.C07.batchStopIterationBecomesRuntimeError = true := by decide +kernel
 
-/-- the receiver: order of the class-name tests of `dict_to_class` and its last statement -/
-theorem C07_gen_dispatch_shape :
-    Pyro.Gen.C07.dictToClassTests = ["isinstance(classname, bytes)", "classname in cls.__custom_dict_to_class_registry",
-      "'__' in classname", "classname == 'Pyro5.core.URI'", "classname == 'Pyro5.client.Proxy'",
-      "classname == 'Pyro5.server.Daemon'", "classname.startswith('Pyro5.util.')",
-      "classname.startswith('Pyro5.errors.')", "classname == 'struct.error'",
-      "classname == 'Pyro5.core._ExceptionWrapper'", "data.get('__exception__', False)"]
-    ∧ Pyro.Gen.C07.dictToClassLast = "raise errors.SerializeError('unsupported serialized class: ' + classname)" := by
-  decide
+/-- what the scripted send of the retry probe does at an attempt (scripts as numbered in `Gen.C07.retryProbe`) -/
+def probeOutcome (script attempt : Nat) : Outcome :=
+  match script with
+  | 0 => .connLost
+  | 1 => .raised ⟨cs "Pyro5.errors.TimeoutError", [], []⟩
+  | 2 => .raised ⟨cs "Pyro5.errors.CommunicationError", [], []⟩
+  | 3 => .raised ⟨cs "builtins.ValueError", [], []⟩
+  | 4 => .value .none
+  | 5 => if attempt < 1 then .connLost else .value .none
+  | 6 => if attempt < 2 then .connLost else .value .none
+  | 7 => if attempt < 1 then .raised ⟨cs "Pyro5.errors.TimeoutError", [], []⟩
+         else if attempt < 2 then .connLost else .value .none
+  | _ => .unmodelled
 
-/-- the caller: `raise data` under the exception flag, release on CommunicationError / KeyboardInterrupt, and the
-    batch results come out of a generator that calls `raiseIt()` on a wrapper -/
-theorem C07_gen_client_shape :
-    Pyro.Gen.C07.clientRaiseTest = ["msg.flags & protocol.FLAGS_EXCEPTION"]
-    ∧ Pyro.Gen.C07.clientReleaseOn = ["errors.CommunicationError", "KeyboardInterrupt"]
-    ∧ Pyro.Gen.C07.clientReleaseBody = ["self._pyroRelease()", "raise"]
-    ∧ Pyro.Gen.C07.batchResultIsGenerator = true
-    ∧ Pyro.Gen.C07.batchResultTests = ["isinstance(result, core._ExceptionWrapper)"]
-    ∧ Pyro.Gen.C07.batchResultRaise = ["result.raiseIt()"] := by decide
+/-- outcome numbers of `Gen.C07.retryProbe`: 0 value, 1 returned None, 2 ConnectionClosedError, 3 TimeoutError,
+    4 other CommunicationError, 5 ValueError, 6 other -/
+def outcomeCode : Option (ClientOut × ConnFate) → Nat
+  | none => 1
+  | some r =>
+    match r.1.outcome with
+    | .value _ => 0
+    | .connLost => 2
+    | .raised e =>
+      if e.cls = cs "Pyro5.errors.ConnectionClosedError" then 2
+      else if e.cls = cs "Pyro5.errors.TimeoutError" then 3
+      else if e.cls = cs "Pyro5.errors.CommunicationError" then 4
+      else if e.cls = cs "builtins.ValueError" then 5 else 6
+    | _ => 6
 
-/-- attribute access calls the accessor of the class's property object directly — `v.fget(obj)` / `v.fset(obj, value)`
-    with `v = getattr(obj.__class__, propname)` — so what the accessor raises is what reaches handleRequest's handler
-    (an `AttributeError` of the getter is not diverted to the instance's `__getattr__` by Python's attribute protocol) -/
-theorem C07_gen_accessor_shape :
-    Pyro.Gen.C07.propGetReturns = ["v.fget(obj)"] ∧ Pyro.Gen.C07.propSetReturns = ["v.fset(obj, value)"]
-    ∧ Pyro.Gen.C07.propGetReturnsLookup = ["getattr(obj.__class__, propname)"]
-    ∧ Pyro.Gen.C07.propSetReturnsLookup = ["getattr(obj.__class__, propname)"] := by decide
+/-- **the retry loop**: on every probed (max_retries 0–3, script) the real `_RemoteMethod` call ended as the model's
+    `remoteMethod` with the bound `retryBound` does, after the same number of sends; attribute reads bypass it -/
+theorem C07_gen_retry : (∀ r ∈ Pyro.Gen.C07.retryProbe,
+      (let res := remoteMethod (genClientEnv idCtor) (retryBound r.1) r.1
+          (fun a => (⟨[], probeOutcome r.2.1 a, false⟩, ConnFate.active));
+       (outcomeCode res.1, res.2)) = (r.2.2.1, r.2.2.2))
+    ∧ 32 ≤ Pyro.Gen.C07.retryProbe.length ∧ Pyro.Gen.C07.attributeReadSendsOnce = true := by decide +kernel
 
-/-- the retry loop of a method call: `for attempt in range(self.__max_retries + 1)`, `return self.__send(…)` inside a
-    try whose only handler catches ConnectionClosedError / TimeoutError and re-raises on the last attempt; attribute
-    reads bypass it -/
-theorem C07_gen_retry_shape :
-    Pyro.Gen.C07.retryTarget = "attempt" ∧ Pyro.Gen.C07.retryRange = "range(self.__max_retries + 1)"
-    ∧ Pyro.Gen.C07.retryTry = ["return self.__send(self.__name, args, kwargs)"]
-    ∧ Pyro.Gen.C07.retryCatches = ["errors.ConnectionClosedError", "errors.TimeoutError"]
-    ∧ Pyro.Gen.C07.retryHandler = ["if attempt >= self.__max_retries:\n    raise"]
-    ∧ Pyro.Gen.C07.attrReadCalls = ["_RemoteMethod(self._pyroInvoke, name, self._pyroMaxRetries)",
-        "self._pyroInvoke('__getattr__', (name,), None)"] := by decide
-
-/-- the two Pyro5 classes the retry loop catches are flagged as such, and nothing else in the whitelist is -/
+/-- the two classes the retry loop catches are flagged as such, and nothing else in the whitelist is -/
 theorem C07_gen_retry_classes :
     (Pyro.Gen.C07.classFlags.filter (fun r => r.2.isConnClosed || r.2.isPyroTimeout)).map Prod.fst
       = [cs "Pyro5.errors.ConnectionClosedError", cs "Pyro5.errors.TimeoutError"] := by decide +kernel
+
+/-- **the dicts**: what `class_to_dict` builds for an exception (keys `__class__` = module.Name, `__exception__` = True,
+    `args`, `attributes` = vars), the wrapper's dict, `raiseIt`, and `make_exception` on four inputs -/
+theorem C07_gen_dict :
+    Pyro.Gen.C07.excDictProbe = [("__class__", "'builtins.ValueError'"), ("__exception__", "True"), ("args", "('a', 1)"),
+      ("attributes", "{'x': 5, 'y': [1, {'k': None}]}")]
+    ∧ Pyro.Gen.C07.excDictPyro = [("__class__", "'Pyro5.errors.NamingError'"), ("__exception__", "True"), ("args", "()"),
+      ("attributes", "{}")]
+    ∧ Pyro.Gen.C07.excDictProbe.map (fun p => p.1.toList) = [kClass, kException, kArgs, kAttributes]
+    ∧ Pyro.Gen.C07.wrapperDictIsClassPlusException = true ∧ Pyro.Gen.C07.wrapperRaisesItsException = true
+    ∧ Pyro.Gen.C07.makeExceptionProbe = [("tuple-args+attrs", "builtins.ValueError ('a', 1) [('x', 5), ('y', [1])]"),
+      ("list-args", "builtins.ValueError ('a',) []"), ("empty-args", "builtins.ValueError () []"),
+      ("no-args-key", "raises builtins.KeyError")] := by decide
+
+/-- **the class-name dispatch**: for every probed serialised class name (all whitelisted names, all keys of
+    `all_exceptions`, and thirty odd ones) the real `dict_to_class` calls `make_exception` with exactly the class the
+    model's `resolves` gives — or does not call it at all -/
+theorem C07_gen_dispatch : (∀ p ∈ Pyro.Gen.C07.dispatchProbe, resolves genNames p.1 = p.2)
+    ∧ (∀ q ∈ whitelist, q ∈ Pyro.Gen.C07.dispatchProbe.map (·.1)) := by decide +kernel
 
 /-! ## the partial theorems instantiated with the extracted tables -/
 
